@@ -195,8 +195,8 @@ class Printer:
         if '{' not in mapping and '(' not in mapping:
             a = ([selfexpr] if selfexpr is not None else []) + [self.arg(x) for x in args]
             text = f'{mapping}({", ".join(a)})'
-            if node is not None and node.get('kind') == 'CallExpr' and node.get('valueCategory') == 'lvalue' \
-                    and self.callee_returns_ref(node) and id(node) != getattr(self, 'discard_id', None):
+            if node is not None and node.get('kind') in ('CallExpr', 'CXXMemberCallExpr') \
+                    and node.get('valueCategory') in ('lvalue', 'xvalue') and id(node) != getattr(self, 'discard_id', None):
                 # a by-name stub / extracted function returning a reference returns a pointer in C
                 return f'(*{text})'
             return text
@@ -215,10 +215,6 @@ class Printer:
                 raise Unsupported(f'mapping {mapping!r} wants arg {i} of {key}')
             return self.addr(args[i]) if addr else self.expr(args[i])
         return re.sub(r'\{(&?\d+|self|\*self|T)\}', sub, mapping)
-
-    def callee_returns_ref(self, n):
-        rd = unwrap(n['inner'][0]).get('referencedDecl', {})
-        return rd.get('type', {}).get('qualType', '').split('(')[0].rstrip().endswith('&')
 
     def nondet(self, c):
         if c == 'void':
